@@ -404,6 +404,31 @@ func runC08(c *Ctx, idx int, o *Obs) {
 		}
 	}
 
+	// the weighted comparison rejects differing taxa too
+	{
+		mm := mb.Clone()
+		tips := modelTips(mm)
+		tips[r.Intn(len(tips))].Name = "taxon_of_no_other_tree"
+		bad := mm.Newick()
+		var st tree.WeightedBipartitionStats
+		got := 0
+		if !o.Guard("compare_mismatch_panic", a+" vs "+bad, func() {
+			ch, err := tree.CompareWeighted(mustParse(a), chanOf(mustParse(bad)), r.Intn(2) == 0, false, 1)
+			if err != nil {
+				got = -1
+				return
+			}
+			for s := range ch {
+				st = s
+				got++
+			}
+		}) {
+			o.Ev("mismatch:weighted", 1)
+			o.Check(got == -1 || (got == 1 && st.Err != nil), "compare_mismatch_accepted",
+				fmt.Sprintf("weighted comparison, renamed taxon: record without error (ref-only %v common %v comp-only %v)", st.Tree1, st.Common, st.Tree2), a+" vs "+bad, "variant", "weighted")
+		}
+	}
+
 	// ---- the command ---------------------------------------------------------------------
 	if idx%8 == 1 {
 		fa := tmpFile(c, "ref.nw", a+"\n")
